@@ -466,7 +466,15 @@ namespace nmtools::view
         } else {
             // TODO: support ufunc datatype promotions
             using view_t = decorator_t<matmul_t, lhs_t, rhs_t>;
-            return view_t{{lhs,rhs}};
+            // NOTE: operands that can't be multiplied (mismatching contraction / batch extents) are reported as Nothing,
+            // the view constructor would otherwise unwrap an empty shape_matmul result
+            auto dst_shape = index::shape_matmul(nmtools::shape<true>(lhs),nmtools::shape<true>(rhs));
+            if constexpr (meta::is_maybe_v<decltype(dst_shape)>) {
+                using return_t = nmtools_maybe<view_t>;
+                return (has_value(dst_shape) ? return_t{view_t{{lhs,rhs}}} : return_t{meta::Nothing});
+            } else {
+                return view_t{{lhs,rhs}};
+            }
         }
     } // matmul
 } // nmtools::view
